@@ -38,6 +38,7 @@ type hTok struct {
 	nonceRaw string
 	jti      string
 	isJWT    bool
+	key      *signKey // the provider key it was signed with
 }
 
 type tmplCfg struct {
@@ -239,7 +240,7 @@ func (w *world) exchange(form url.Values) tokenAnswer {
 
 func (w *world) exchange1(form url.Values) tokenAnswer {
 	c := w.codes[form.Get("code")]
-	if c == nil || c.used || form.Get("redirect_uri") != c.redirect {
+	if c == nil || c.used || (c.redirect != "" && form.Get("redirect_uri") != c.redirect) { // redirect "": a direct code whose sender registered whatever URI the deployment will present
 		return tokenAnswer{kind: "4xx", desc: "bad code"}
 	}
 	if c.challenge != "" && s256(form.Get("code_verifier")) != c.challenge {
@@ -275,6 +276,7 @@ func (w *world) mint(claimsMod func(M), expIn time.Duration, valid bool, blob in
 	}
 	t.claims = cl
 	k := w.p.keys[rng.Intn(len(w.p.keys))]
+	t.key = k
 	t.raw = stdToken(k, cl)
 	if !valid {
 		parts := strings.Split(t.raw, ".")
